@@ -6,6 +6,19 @@ VERIF = os.path.dirname(os.path.dirname(os.path.abspath(__file__)))
 
 # property -> (technique, level text, level note, design ref)
 CLAIMED = {
+    "C01": ("Lean 4 proofs (carry chains, Comba, Karatsuba, Knuth D with add-back, sign fix-ups = exact Int arithmetic in normal form, "
+            "any digit base) + correspondence run at w=64 and w=8",
+            "Proved in Lean for the model, for every operand value, sign, length and every digit base 2^w: add/sub (+single-digit), "
+            "mul (schoolbook, Comba, one-level Karatsuba), squaring (Comba, Karatsuba), floor division with remainder through Knuth D "
+            "(quotient estimate, correction loop, add-back, normalisation), shifts, doubling, compare, bit access return the exact integer "
+            "in normal form or a precision error only when the operand lengths leave no room. Two clauses are PARTIAL and carried as known "
+            "findings with machine-checked counterexamples: bn_rsh/bn_hlv and bn_div_dig truncate for negative inexact operands. "
+            "Tie: ~8000 structured operation lines per run (all alias patterns, all sign pairs, Knuth-D corner families, lengths up to the "
+            "capacity) on the 64-bit and 8-bit-digit builds, implementation vs model vs Int.",
+            "Trusted: Lean kernel (propext, Classical.choice, Quot.sound); hand-written model tied by correspondence only; __uint128_t digit "
+            "products and arch_lzcnt modelled; aliasing and input-unchanged clauses observed on the implementation only; bn_sqr_basic "
+            "(bn_sqra_low) compared but not modelled separately.",
+            "DESIGN.md §5 C01"),
     "C15": ("Lean 4 refinement proof (byte-level DRBG model ⊑ SP 800-90A spec, induction over histories) + correspondence run",
             "Proved in Lean for the model: for every hash with 32-byte output, every non-empty seed and every history of generate/reseed "
             "calls shorter than 2^31-258 operations, the model's byte stream equals the SP 800-90A Hash_DRBG stream; over-limit requests and "
